@@ -202,6 +202,7 @@ def judge(pid, s, chk):
     after = table(s, "fds_after") or {}
     rep = child_report(s)
     plog = s["logs"].get(s["parent_pid"], [])
+    plog_all = plog
     forked = any(l.startswith("fork = ") and not l.startswith("fork = -1") for l in plog)
     rtext = "\n".join(s["spec"])
 
@@ -219,8 +220,26 @@ def judge(pid, s, chk):
                 bad("a process was started for an invalid combination")
         if not invalid and res != "ok" and not s["fault"] and not s["exec_fail"]:
             bad("a valid combination of redirections was refused: %s" % res)
+        if s.get("relaunch_stderr"):
+            ri = next((i for i, l in enumerate(plog_all) if l.startswith("mark relaunch")), None)
+            pid2 = None
+            if ri is not None:
+                for ln in plog_all[ri:]:
+                    if ln.startswith("fork = ") and int(ln.split("=")[1].split()[0]) > 0:
+                        pid2 = int(ln.split("=")[1].split()[0])
+                        break
+            rep2 = e2.parse_report(s["reps"][pid2]) if pid2 in s.get("reps", {}) else None
+            if rep2 is None:
+                bad("second launch (after the parent re-pointed its standard error): no self-report from the child")
+            else:
+                for i in ((1, 2) if cfg["stdout"] == "merge" else (2,)):
+                    tg = rep2["fds"].get(i, {}).get("target", "")
+                    if not tg.endswith("/err2.txt"):
+                        bad("second launch by the same thread, after the parent re-pointed its standard error to err2.txt: the child's descriptor %d is %s" % (i, tg))
         # the parent's own standard streams are never touched
         for i in (0, 1, 2):
+            if i == 2 and s.get("relaunch_stderr"):
+                continue                 # (the scenario itself re-points the parent's standard error)
             if before.get(i) != after.get(i):
                 bad("parent's descriptor %d changed: %s -> %s" % (i, before.get(i), after.get(i)))
         if any(l.startswith("close %d " % i) for l in plog for i in (0, 1, 2)):
@@ -332,6 +351,16 @@ def scenarios_for(pid, tier, r):
         for c in cfgs:
             if "merge" in (c["stdout"], c["stderr"]) or tier == "thorough":
                 scns.append(mk_scenario("c05-%d" % n, c, in_thread=True))
+                n += 1
+        # launched twice by the same thread, the parent re-pointing its own standard error in between: "the parent's
+        # own stream" is the one it has at the time of the launch
+        for c in ({"stdin": "none", "stdout": "merge", "stderr": "none"}, {"stdin": "none", "stdout": "none", "stderr": "none"},
+                  {"stdin": "pipe", "stdout": "merge", "stderr": "none"}):
+            for thr in (False, True):
+                sc = mk_scenario("c05-%d" % n, dict(c), in_thread=thr)
+                sc["spec"][-2:-2] = ["relaunch_stderr $WD/err2.txt"]
+                sc["relaunch_stderr"] = True
+                scns.append(sc)
                 n += 1
         if tier == "thorough":
             for c in cfgs[::3]:
